@@ -159,6 +159,22 @@ def r_K7():
     return '{' in pp.pformat(pp.trailing_comment(D7(), 'x')) and '{' not in pp.pformat(D7())
 
 
+def r_F20():
+    import prettyprinter as pp
+    out = pp.pformat({pp.comment(2, 'c'): 'a', 1: 'b'}, sort_dict_keys=True)
+    return out.index('1:') > out.index('2:')
+
+
+def r_K8():
+    import prettyprinter as pp
+    # ten fresh dicts: the place of the tuple key with a commented element depends on object identity, not on its value
+    outs = set()
+    for _ in range(10):
+        out = pp.pformat({(pp.comment(2, 'c'),): 'a', (1,): 'b'}, sort_dict_keys=True, width=200)
+        outs.add(out.index("'a'") < out.index("'b'"))
+    return True in outs        # the (2,) entry can come first although (1,) < (2,)
+
+
 def r_F7():
     import enum
     import prettyprinter as pp
